@@ -252,3 +252,51 @@ fn c10_pick_numeric_min_max() {
   kani::cover!(n == 3 && xs[0] > xs[1] && xs[1] > xs[2], "3 distinct values, decreasing");
   kani::cover!(n == 0, "empty list");
 }
+
+fn any_key3(k: [u8; 3], o: [SortOrder; 3]) -> SortKey {
+  let mut parts: SmallVec<[SortKeyPart; 4]> = SmallVec::new();
+  parts.push(SortKeyPart {
+    order: o[0],
+    value: any_value(k[0]),
+  });
+  parts.push(SortKeyPart {
+    order: o[1],
+    value: any_value(k[1]),
+  });
+  parts.push(SortKeyPart {
+    order: o[2],
+    value: any_value(k[2]),
+  });
+  SortKey {
+    parts,
+    segment_ord: kani::any(),
+    doc_id: kani::any(),
+  }
+}
+
+//@ props: C10, C11
+//@ tier: thorough
+//@ timeout: 2700
+//@ funcs: query::sort::SortKey::cmp, query::sort::SortKeyPart::cmp
+//@ symbolic: three keys of 3 parts each (score/i64/f64 kinds, both directions, missing values), all values, segment and doc ordinals
+//@ bounds: 3 keys x 3 parts (the maximum number of sort keys the property quantifies over)
+//@ oracle: antisymmetry, transitivity, Equal only for identical (segment, doc)
+#[kani::proof]
+#[kani::unwind(5)]
+fn c10_sortkey_order_axioms_3x3() {
+  let k: [u8; 3] = kani::any();
+  kani::assume(k[0] <= 2 && k[1] <= 2 && k[2] <= 2);
+  let o = [any_order(), any_order(), any_order()];
+  let a = any_key3(k, o);
+  let b = any_key3(k, o);
+  let c = any_key3(k, o);
+  let ab = a.cmp(&b);
+  assert!(b.cmp(&a) == ab.reverse(), "C10: SortKey::cmp is not antisymmetric");
+  if ab == Ordering::Equal {
+    assert!(a.segment_ord == b.segment_ord && a.doc_id == b.doc_id, "C11: two distinct hits compare Equal");
+  }
+  if ab != Ordering::Greater && b.cmp(&c) != Ordering::Greater {
+    assert!(a.cmp(&c) != Ordering::Greater, "C10: SortKey::cmp is not transitive");
+  }
+  kani::cover!(ab == Ordering::Less && a.parts[0].cmp(&b.parts[0]) == Ordering::Equal && a.parts[1].cmp(&b.parts[1]) == Ordering::Equal, "decided by the third key");
+}
